@@ -452,7 +452,53 @@ def r4_baked_constants_are_validated_hints(ctx):
     ctx.note(f"C14.R4: {n} process-dependent call(s) in generator.py")
 
 
+COMPILER = "src/basilisp/lang/compiler/__init__.py"
+UTIL = "src/basilisp/lang/util.py"
+
+
+@rule("C14.R5", floor=3)
+def r5_generated_names_of_cached_code_are_retired_before_it_runs(ctx):
+    """Generated names (`x_123`: top-level let locals, fn names, temporaries) become globals of the
+    namespace's module and are frozen into its cache, while the counter behind genname restarts in
+    every process.  A namespace loaded from its cache is only equivalent to the compiled one if no
+    code compiled *later in this process into the same module* (a file it loads, forms evaluated
+    into it -- possibly while the cached code is still running) can be given one of those names.
+    So compile_bytecode moves the counter past every generated name the cached code objects use
+    (their own names and those of nested code objects) before it executes any of them."""
+    fn = ctx.fn(COMPILER, "compile_bytecode")
+    g = CFG(fn)
+    execs = [nd for nd in g.nodes if nd.kind == "stmt" and any(P.un(c.func) == "exec" for c in P.calls(nd.ast))]
+    adv = [nd for nd in g.nodes if nd.kind == "stmt" and any(P.un(c.func).endswith("advance_name_id") for c in P.calls(nd.ast))]
+    if not execs:
+        raise AnalysisError("compile_bytecode no longer executes the cached code objects with exec")
+    ok = bool(adv) and all(g.dominated(e, adv) for e in execs)
+    ctx.ob("C14.R5", f"{COMPILER}::compile_bytecode::the name counter is advanced before any cached code runs", COMPILER, fn.lineno, ok,
+           "" if ok else "cached code is executed without (or before) moving the name counter past the generated names it defines: code compiled into the same module later in this process re-uses them and overwrites the cached module's globals",
+           witness="multi.lpy: (let [x :main-i] (defn fi [] x)) ... (load \"/multi_impl\") -- from its cache (f2) returns :impl-9")
+    param = fn.args.args[0].arg
+    arg_ok = False
+    for nd in adv:
+        for c in P.calls(nd.ast):
+            if P.un(c.func).endswith("advance_name_id") and c.args and param in P.names_read(c.args[0]):
+                helpers = [P.find_def(ctx.py(COMPILER), n) for n in P.names_read(c.args[0])]
+                for h in [x for x in helpers if x is not None and isinstance(x, P.FUNC)]:
+                    ht = P.un(h)
+                    rec_names = {P.un(a.targets[0]) for a in ast.walk(h) if isinstance(a, ast.Assign) and any(P.un(x.func) == h.name for x in P.calls(a.value))}
+                    recursive = any(isinstance(r, ast.Return) and r.value is not None and (any(P.un(x.func) == h.name for x in P.calls(r.value)) or (P.names_read(r.value) & rec_names)) for r in ast.walk(h))
+                    arg_ok = arg_ok or ("co_names" in ht and "co_consts" in ht and recursive and "max(" in ht)
+    ctx.ob("C14.R5", f"{COMPILER}::compile_bytecode::the bound is taken from every code object, nested ones included", COMPILER, fn.lineno, arg_ok,
+           "" if arg_ok else "the value the counter is advanced to is not computed from the names (co_names, recursively through co_consts) of the cached code objects")
+    an = ctx.fn(UTIL, "advance_name_id")
+    at = P.un(an)
+    ok = "_NAME_COUNTER.swap(" in at and "max(" in at
+    ctx.ob("C14.R5", f"{UTIL}::advance_name_id::never moves the counter backwards", UTIL, an.lineno, ok, "" if ok else "advance_name_id does not set the counter to the maximum of its value and the bound")
+
+
 SELFTEST = [
+    {"name": "cached code runs before its generated names are retired (the repaired defect)", "file": COMPILER, "expect": "C14.R5",
+     "old": "    advance_name_id(max(map(_max_generated_name_id, code), default=0))\n", "new": ""},
+    {"name": "only the top-level code objects are scanned for generated names", "file": COMPILER, "expect": "C14.R5",
+     "old": "    return max(own, max(nested, default=0))\n", "new": "    return own\n"},
     {"name": "cache write failure fails the import (the repaired defect)", "file": IMP, "expect": "C14.R3",
      "old": "        try:\n            self.set_data(cache_path, data)\n        except OSError as e:\n            logger.debug(f\"Could not write Basilisp bytecode cache '{cache_path}': {e}\")\n", "new": "        self.set_data(cache_path, data)\n"},
     {"name": "header compared with the unmasked value (the repaired defect)", "file": IMP, "expect": "C14.R2",
